@@ -77,7 +77,16 @@ pub fn gen_c16(seed: u64, tier: &str) -> Value {
     // queries, spread over the start-up window and beyond the 120 s deadline
     let nq = 2 + r.below(if tier == "thorough" { 10 } else { 6 });
     let mut conns = Vec::new();
+    // resets (queries that carry the notify header while the channel is unknown or disabled) placed around the instants
+    // at which a subsystem that had to retry reports ready (retries are one second apart)
+    let reset_burst = r.chance(1, 3);
+    let nq = if reset_burst { nq + 3 + r.below(6) } else { nq };
     for k in 0..nq {
+        if reset_burst && k >= nq - 6 {
+            let at_ms = (1000 * r.below(6) + r.below(60)).saturating_sub(20);
+            conns.push(json!({"at_ms": at_ms, "tick": {"rel_ns": -1}, "notify": true, "metadata": true, "id": k}));
+            continue;
+        }
         let at_ms = match r.below(6) {
             0 => r.below(50),
             1 => r.below(2000),
